@@ -223,6 +223,10 @@ impl BTreeMap<String, SourcedValue> {
         ensures final(self)@ == old(self)@.insert(k@, v)
     { unimplemented!() }
 }
+impl Clone for BTreeMap<String, SourcedValue> {
+    #[verifier::external_body]
+    fn clone(&self) -> (r: Self) ensures r@ == self@ { unimplemented!() }
+}
 pub type Object = BTreeMap<String, SourcedValue>;
 pub type ObjectRef = Arc<Mutex<Object>>;
 """
